@@ -29,6 +29,32 @@ W = {
  'C14-regex-blowup': c14(['  .fill ' + 'a' * 60], 'T-wall-clock-exceeded', wall_verdict=True),
 }
 
+def c08(ops, vclass, pre=None, cli=None):
+    return {'property': 'C08', 'violation_class': vclass,
+            'case': {'pre_symbols': pre or {}, 'cli_symbols': cli or {}, 'ops': ops}}
+
+
+def cmp(a, op, b):
+    return {'form': 'cmp', 'terms': [a, b], 'op': op}
+
+
+W.update({
+ 'C08-nested-chain-in-unselected-branch': c08(
+     [{'op': 'if', 'cond': cmp(0, '==', 1)}, {'op': 'if', 'cond': cmp(1, '==', 1)}, {'op': 'marker', 'k': 8}],
+     'CC-unselected-line-assembled'),
+ 'C08-condition-reevaluated-after-define': c08(
+     [{'op': 'ifdef', 'name': 'SA', 'neg': True}, {'op': 'define', 'name': 'SA', 'value': 1}, {'op': 'marker', 'k': 8}],
+     'CC-selected-line-dropped'),
+ 'C08-define-in-unselected-branch': c08(
+     [{'op': 'if', 'cond': cmp(0, '==', 1)}, {'op': 'define', 'name': 'SA', 'value': 1}, {'op': 'endif'},
+      {'op': 'ifdef', 'name': 'SA', 'neg': False}, {'op': 'marker', 'k': 8}],
+     'CC-unselected-line-assembled'),
+ 'C08-create-memzone-in-unselected-branch': c08(
+     [{'op': 'if', 'cond': cmp(0, '==', 1)}, {'op': 'mkzone', 'name': 'Z1', 'idx': 0}, {'op': 'else'},
+      {'op': 'mkzone', 'name': 'Z1', 'idx': 0}],
+     'CC-valid-history-rejected'),
+})
+
 if __name__ == '__main__':
     os.makedirs(os.path.join(HERE, 'findings'), exist_ok=True)
     for name, body in W.items():
